@@ -92,48 +92,74 @@ def ctxOracles (id op : String) (c : Ctx) (x y : Dec) (iarg : Int) (impl : Out) 
     | some e =>
       if !(e.meets impl.d impl.fl) then
         out := out ++ [s!"{id} PROPFAIL C08 special-value rule: expected form={repr e.form} neg={repr e.neg} invalid={e.invalid} divByZero={e.divByZero} divUndefined={e.divUndefined}"]
+      if impl.fl.invalidOp != e.invalid || impl.fl.divByZero != e.divByZero || impl.fl.divUndefined != e.divUndefined || impl.fl.divImpossible then
+        out := out ++ [s!"{id} PROPFAIL C02 InvalidOperation/DivisionByZero/DivisionUndefined/DivisionImpossible not as the specification assigns them: expected invalid={e.invalid} divByZero={e.divByZero} divUndefined={e.divUndefined}"]
     | none => pure ()
     for (prop, why) in opOracle op c x y iarg impl do
       out := out ++ [s!"{id} PROPFAIL {prop} {why}"]
   return out
 
+/-- `T=c19,n16,ef:1:23:-1` → tape -/
+def parseTape (s : String) : Option Tape :=
+  if !s.startsWith "T=" then none else
+  let body := (s.drop 2).toString
+  if body.isEmpty then some [] else
+  (body.splitOn ",").mapM fun tok =>
+    if tok.startsWith "c" then (tok.drop 1).toString.toNat?.map TapeE.cp
+    else if tok.startsWith "n" then (tok.drop 1).toString.toInt?.map TapeE.n
+    else if tok.startsWith "e" then (parseDec (tok.drop 1).toString).map (fun d => TapeE.est d.d)
+    else none
+
+/-- one `ctxop` line with its fields split; `tape?` = the decision tape, when the line carries one -/
+def handleCtxOpCore (id op p emax emin traps mode xs ys ia ds fls errs auxs : String) (tape? : Option Tape) :
+    Option (List String × Nat × Nat) := do
+  let c ← parseCtx p emax emin traps mode
+  let x ← parseDec xs
+  let y ← if ys == "-" then some ({ d := {} } : PDec) else parseDec ys
+  let iarg ← ia.toInt?
+  let di ← parseDec ds
+  let fli ← fls.toNat?
+  let erri ← parseErr errs
+  let auxi ← auxs.toInt?
+  let impl : Out := { d := di.d, fl := Cond.ofNat fli, err := erri, aux := auxi }
+  -- a result is delivered with a nil error or with a trap error explained by the returned flags; a
+  -- composite function that returns the error of an internal step (flags 0) leaves d untouched
+  let delivered : ErrKind → Bool := fun e => e == .none || (e == .trap && (Cond.ofNat fli &&& c.traps).any)
+  let mut out : List String := []
+  let mut mm := 0
+  let mut pf := 0
+  -- model correspondence, by projection
+  match (match tape? with | some tp => runCtxOpT op c x.d y.d iarg tp | none => runCtxOp op c x.d y.d iarg) with
+  | none =>
+    if tape?.isSome then
+      mm := mm + 1
+      out := out ++ [s!"{id} MISMATCH tape model= the recorded decision tape does not fit the model's control flow"]
+    else if oracleOnlyOps.contains op then pure () else out := out ++ [s!"{id} NOMODEL {op}"]
+  | some m =>
+    let mut projs : List String := []
+    if m.err != impl.err then projs := projs ++ ["err"]
+    if (m.err == .none || (m.err == .trap && (m.fl &&& c.traps).any)) && delivered impl.err then
+      if m.fl != impl.fl then projs := projs ++ ["flags"]
+      if !valueEq m.d impl.d then projs := projs ++ ["value"]
+      else if m.d != impl.d then projs := projs ++ ["repr"]
+      if m.aux != impl.aux then projs := projs ++ ["aux"]
+    if !projs.isEmpty then
+      mm := mm + 1
+      out := out ++ [s!"{id} MISMATCH {",".intercalate projs} model= {showOut m}"]
+  let ol := ctxOracles id op c x.d y.d iarg impl fli di.coeffNeg
+  out := out ++ ol
+  pf := pf + ol.length
+  pure (out, mm, pf)
+
 /-- handle one `ctxop` line; returns the problem lines -/
 def handleCtxOp (id : String) (t : List String) : Option (List String × Nat × Nat) :=
   match t with
-  | [op, p, emax, emin, traps, mode, xs, ys, ia, "=>", ds, fls, errs, auxs] => do
-    let c ← parseCtx p emax emin traps mode
-    let x ← parseDec xs
-    let y ← if ys == "-" then some ({ d := {} } : PDec) else parseDec ys
-    let iarg ← ia.toInt?
-    let di ← parseDec ds
-    let fli ← fls.toNat?
-    let erri ← parseErr errs
-    let auxi ← auxs.toInt?
-    let impl : Out := { d := di.d, fl := Cond.ofNat fli, err := erri, aux := auxi }
-    -- a result is delivered with a nil error or with a trap error explained by the returned flags; a
-    -- composite function that returns the error of an internal step (flags 0) leaves d untouched
-    let delivered : ErrKind → Bool := fun e => e == .none || (e == .trap && (Cond.ofNat fli &&& c.traps).any)
-    let mut out : List String := []
-    let mut mm := 0
-    let mut pf := 0
-    -- model correspondence, by projection
-    match runCtxOp op c x.d y.d iarg with
-    | none => if oracleOnlyOps.contains op then pure () else out := out ++ [s!"{id} NOMODEL {op}"]
-    | some m =>
-      let mut projs : List String := []
-      if m.err != impl.err then projs := projs ++ ["err"]
-      if (m.err == .none || (m.err == .trap && (m.fl &&& c.traps).any)) && delivered impl.err then
-        if m.fl != impl.fl then projs := projs ++ ["flags"]
-        if !valueEq m.d impl.d then projs := projs ++ ["value"]
-        else if m.d != impl.d then projs := projs ++ ["repr"]
-        if m.aux != impl.aux then projs := projs ++ ["aux"]
-      if !projs.isEmpty then
-        mm := mm + 1
-        out := out ++ [s!"{id} MISMATCH {",".intercalate projs} model= {showOut m}"]
-    let ol := ctxOracles id op c x.d y.d iarg impl fli di.coeffNeg
-    out := out ++ ol
-    pf := pf + ol.length
-    pure (out, mm, pf)
+  | [op, p, emax, emin, traps, mode, xs, ys, ia, "=>", ds, fls, errs, auxs, tapes] =>
+    match parseTape tapes with
+    | none => none
+    | some tape => handleCtxOpCore id op p emax emin traps mode xs ys ia ds fls errs auxs (some tape)
+  | [op, p, emax, emin, traps, mode, xs, ys, ia, "=>", ds, fls, errs, auxs] =>
+    handleCtxOpCore id op p emax emin traps mode xs ys ia ds fls errs auxs none
   | [_op, _p, _emax, _emin, _traps, _mode, _xs, _ys, _ia, "=>", what] =>
     -- PANIC / HANG
     some ([s!"{id} PROPFAIL C04 {what}"], 0, 1)
@@ -884,6 +910,23 @@ def handleLine (line : String) : Option (List String × Nat × Nat) :=
      | some "PANIC" | some "HANG" => some (propfail id "C04" "Float64 panic or hang")
      | some w => some (propfail id "C17" ("Float64 is not the float64 nearest to the decimal value: " ++ w))
      | none => none)
+  | [id, "consts", name, "=>", ds] =>
+    -- the pre-rounded tables of ln 10 and 1/ln 10 as the package holds them vs the model's derivation
+    (match parseDec ds with
+     | none => none
+     | some d =>
+       let (isLn, rest) := if name.startsWith "ln10." then (true, (name.drop 5).toString) else (false, (name.drop 8).toString)
+       let (co, ex, len) := if isLn then (ln10Coeff, ln10Exp, ln10StrLen) else (invLn10Coeff, invLn10Exp, invLn10StrLen)
+       let model? : Option Dec :=
+         if rest == "unrounded" then some { coeff := co, exp := ex }
+         else if rest.startsWith "vals[" then
+           match ((rest.drop 5).toString.dropEnd 1).toString.toNat? with
+           | some i => if i < constVals len then some (constGet co ex len (2 ^ i)) else none
+           | none => none
+         else none
+       match model? with
+       | some m => if m == d.d then some ([], 0, 0) else some ([s!"{id} MISMATCH consts model= {m.coeff}E{m.exp}"], 1, 0)
+       | none => some ([s!"{id} MISMATCH consts model= no such table entry"], 1, 0))
   | id :: "conc" :: rest =>
     (match rest.getLast? with
      | some "same" => some ([], 0, 0)
